@@ -1,7 +1,7 @@
 """C04 Layout, comments and command-name case do not affect the output (metamorphic)."""
 from hypothesis import strategies as st
 
-from vlib import gen_cmake as G, render as R
+from vlib import gen_cmake as G, render as R, ref_lexer as L
 from vlib.cminx_run import document_text, real_settings
 from vlib.harness import Result
 from .common import exc_key, short
@@ -54,8 +54,18 @@ def evaluate(case):
     if base.exc is not None:
         res.fail("canonical:" + exc_key(base.exc), repr(base.exc)[:300])
         return res
+    def tokens(text):
+        lx = L.lex(text)
+        if lx.error is not None:
+            return ("error", str(lx.error))
+        return [(c.name.lower(), c.flat()) for c in lx.commands]
+    canon_tokens = tokens(canon)
     for i, lay in enumerate(case["layouts"]):
         src = R.render(module, lay, eof_newline=case["eof_newline"] or i > 0, features=feats)
+        # soundness guard: both layouts must have the same token sequence according to the reference lexer
+        if tokens(src) != canon_tokens:
+            res.fail("HARNESS:layouts-differ-in-tokens", f"layout {i} changes the token sequence (renderer bug)")
+            continue
         run = document_text(src, settings)
         if run.exc is not None:
             res.fail("variant:" + exc_key(run.exc), f"layout {i}: {run.exc!r}"[:300])
